@@ -294,7 +294,16 @@ func genHistory(t *rapid.T, maxOps int) c12Case {
 		e := &w.Ents[rapid.IntRange(0, len(w.Ents)-1).Draw(t, l+"-ent")]
 		alias := e.EffAlias()
 		var op hOp
-		switch rapid.IntRange(0, 16).Draw(t, l+"-kind") {
+		switch rapid.IntRange(0, 17).Draw(t, l+"-kind") {
+		case 17:
+			// the same extensions in another order
+			if len(e.Extensions) < 2 || extEqual(e.Extensions[0], e.Extensions[len(e.Extensions)-1]) {
+				continue
+			}
+			xs := append([]core.Extension(nil), e.Extensions...)
+			xs[0], xs[len(xs)-1] = xs[len(xs)-1], xs[0]
+			op = hOp{Kind: "edit-ext", Ent: alias, Exts: xs}
+			e.Extensions = xs
 		case 16:
 			if len(w.Ents) < 2 {
 				continue
